@@ -18,6 +18,9 @@ CHECKS = {
     "C04": ("CrossHair/z3 symbolic execution of the real IH5Record._open/_check_ublock (and IH5MFRecord overrides) on stand-in user blocks with symbolic record ids, patch indices, uuids and predecessor links (1..3 files, any order, every hash-verdict combination) against an independently written coherence predicate",
             "trusted: SHA-256 detects payload modification (hash oracle is a per-file verdict); stand-in user blocks; counterexamples replayed with real user blocks on real h5py files",
             "4/C04"),
+    "C05": ("CrossHair/z3 exploration of symbolic container stacks written as records (real user blocks) on the in-memory file system and merged by the real merge_files/h5_copy_from_to: merged view == source view == fold(stack); chain identity; source unchanged; follow-up patch applies alike; counterexamples replayed as public-API histories on real h5py",
+            "trusted: substrate (conformance-tested), fold, Inv; kinds enumerated by solver-driven realisation; bounds: 2 containers over {a,a/x,a@k}, 3 over {a,a/x}; 8 follow-up operations; IH5Record + IH5MFRecord",
+            "4/C05"),
     "C09": ("same (W) obligation as C01 with the plain substrate file as third party: every raw protocol operation succeeds/fails alike and leaves the same tree for any patch-boundary placement; protocol members enumerated from util/types.py",
             "trusted: as C01; driver level only (container-level metadata/query lock-step is outside, see C06); exception classes not compared",
             "4/C09"),
